@@ -66,6 +66,9 @@ def get_attr(E, obj, attr, node):
         return Ref('SDict.' + attr, 'method', bound=obj)
     if isinstance(obj, PyList):
         return Ref('PyList.' + attr, 'method', bound=obj)
+    if isinstance(obj, Marker) and obj.kind == 'columns' and attr == 'values':
+        # the column labels as they are now (an array of the current Index: later pops / inserts do not change it)
+        return tuple(obj.obj.cols)
     if isinstance(obj, Marker):
         return Ref('Marker.' + obj.kind + '.' + attr, 'method', bound=obj)
     if isinstance(obj, str):
